@@ -559,3 +559,119 @@ func HarnessC12Modules() {
 		verifrt.Assert(!o.Accepted(), "a private (lower-case) symbol of another module is named and the program is accepted")
 	}
 }
+
+// ---------------------------------------------------------------------------------------------------- C03
+type c03Rule struct {
+	class, stmt string
+	usesReturn  bool // the injected statement is a return: meaningless inside a void function literal
+}
+
+var c03Rules = []c03Rule{
+	{"arithmetic between different numeric types", "let z: i64 = a + b;", false},
+	{"arithmetic between different numeric types", "let z: f64 = f * a;", false},
+	{"implicit narrowing", "let z: i8 = a;", false},
+	{"implicit narrowing", "let z: i32 = b;", false},
+	{"float-to-int conversion", "let z: i32 = f;", false},
+	{"non-bool condition", "if a { }", false},
+	{"non-bool condition", "while a { break; }", false},
+	{"non-bool operand of a logical operator", "let z: bool = c && a;", false},
+	{"non-bool operand of a logical operator", "let z: bool = !a;", false},
+	{"wrong argument count", "let z: i32 = id();", false},
+	{"wrong argument count", "let z: i32 = id(a, a);", false},
+	{"wrong argument count", "let z: i32 = p.m(a);", false},
+	{"wrong argument type", "let z: i32 = id(b);", false},
+	{"wrong argument type", "let z: i32 = two(b, a);", false},
+	{"wrong argument type", "let z: i32 = id(c);", false},
+	{"undefined name", "let z: i32 = nope;", false},
+	{"undefined name", "let z: i32 = nofn(a);", false},
+	{"redeclared name", "let z: i32 = 1; let z: i32 = 2;", false},
+	{"missing return value", "if c { return; }", true},
+	{"wrong return value", "if c { return b; }", true},
+	{"wrong return value", "if c { return c; }", true},
+	{"optional where T is required", "let z: i32 = o;", false},
+	{"optional where T is required", "let z: i32 = id(o);", false},
+	{"unknown struct field", "let z: i32 = p.Q;", false},
+	{"unknown struct field", "let q: P = { .X = 1, .Y = 2, .Q = 3 } as P;", false},
+	{"missing struct field", "let q: P = { .X = 1 } as P;", false},
+	{"mistyped struct field", "let q: P = { .X = c, .Y = 2 } as P;", false},
+	{"more initialisers than the array holds", "let q: [2]i32 = [1, 2, 3];", false},
+	{"calling a non-function", "let z: i32 = a();", false},
+	{"calling a non-function", "let z: i32 = p.X();", false},
+	{"unhandled result", "res(a);", false},
+	{"unhandled result", "res0();", false},
+	{"unhandled result", "p.r0();", false},
+	{"unhandled result", "let z: i32 = res(a);", false},
+	{"unhandled result", "let z: i32 = res0();", false},
+	{"error return from a non-result function", "if c { return 1!; }", true},
+}
+
+var c03Contexts = []struct {
+	pre, post string
+	voidBody  bool
+}{
+	{"", "", false},
+	{"if c {", "}", false},
+	{"if c { } else {", "}", false},
+	{"while c {", "break; }", false},
+	{"for i, v in xs {", "}", false},
+	{"match a { 1 => {", "} _ => { } }", false},
+	{"let g := fn() {", "};", true},
+	{"if c { while c { match a { 1 => {", "} _ => { } } break; } }", false},
+}
+
+const c03Prelude = `type P struct { .X: i32, .Y: i64 };
+fn id(a: i32) -> i32 { return a; }
+fn two(a: i32, b: i64) -> i32 { return a; }
+fn res(a: i32) -> str ! i32 { return a; }
+fn res0() -> str ! i32 { return 1; }
+fn (p: &P) m() -> i32 { return p.X; }
+fn (p: &P) r0() -> str ! i32 { return 1; }
+`
+
+// c03Run: every rule class of the catalogue, injected as one statement into every syntactic context of an otherwise
+// well-typed function (or method): the real front end must reject the program with an error on the injected line;
+// without the injection every context is accepted.
+func c03Run(lo, hi int, method bool) {
+	k := lo + verifrt.Choice("rule", hi-lo+1) // the value hi stands for "no injection" (calibration)
+	cx := c03Contexts[verifrt.Choice("context", len(c03Contexts))]
+	var sb strings.Builder
+	sb.WriteString(c03Prelude)
+	line := 8
+	if method {
+		sb.WriteString("fn (self: &P) t(a: i32, b: i64, c: bool, f: f64, o: i32?, p: P, xs: []i32) -> i32 {\n")
+	} else {
+		sb.WriteString("fn t(a: i32, b: i64, c: bool, f: f64, o: i32?, p: P, xs: []i32) -> i32 {\n")
+	}
+	line++
+	if cx.pre != "" {
+		sb.WriteString(cx.pre + "\n")
+		line++
+	}
+	injLine := line
+	if k < hi {
+		r := c03Rules[k]
+		if r.usesReturn && cx.voidBody {
+			return
+		}
+		sb.WriteString(r.stmt + "\n")
+	} else {
+		sb.WriteString("let z: i32 = id(a);\n")
+	}
+	if cx.post != "" {
+		sb.WriteString(cx.post + "\n")
+	}
+	sb.WriteString("return 0;\n}\n")
+	o := Run(sb.String())
+	if k < hi {
+		verifrt.Assert(!o.Accepted(), "an ill-typed program is accepted: "+c03Rules[k].class)
+		verifrt.Assert(o.Accepted() || o.ErrorOnLine(injLine), "the injected rule violation is not what the compiler reports: "+c03Rules[k].class)
+	} else {
+		verifrt.Assert(o.Accepted(), "CALIBRATION: the well-typed base program is rejected: "+o.Messages())
+	}
+}
+
+func HarnessC03Rules0() { c03Run(0, 12, false) }
+func HarnessC03Rules1() { c03Run(12, 24, false) }
+func HarnessC03Rules2() { c03Run(24, len(c03Rules), false) }
+func HarnessC03Rules3() { c03Run(0, 18, true) }
+func HarnessC03Rules4() { c03Run(18, len(c03Rules), true) }
